@@ -578,9 +578,12 @@ def run(script, ctx):
         elif k == "add_trim":
             # a trim curve is added to a surface that uses the trim-aware tessellator and has ALREADY been tessellated: the mesh
             # read afterwards omits the trimmed region (un-normalised surfaces are left alone: their trims live on another domain)
-            if st.trim or not isinstance(s.tessellator, g.tessellate.TrimTessellate) or st.spec.get("aL"):
+            if not isinstance(s.tessellator, g.tessellate.TrimTessellate) or st.spec.get("aL") or (st.trim and op["how"] != "setter"):
                 ctx.ops_skipped += 1
                 continue
+            if st.trim:
+                # the trims property is ASSIGNED a new list: the surface then has the new trim only
+                ctx.probe("trim_list_replaced_through_the_setter")
             s.sample_size = op["n"]
             _ = _mesh_of(s)
             c_ = _trim_curve(g, op["trim"])
